@@ -14,7 +14,7 @@ PROP = 'C14'
 LEAN_TARGETS = ['VivProps.C14']
 DRIVER = 'Serialize'
 REQUIRED_THEOREMS = [
-    'plain', 'idempotent', 'rejects', 'accepts', 'structure', 'roundtrip_partial',
+    'plain', 'idempotent', 'rejects', 'accepts', 'keeps_structure', 'roundtrip_partial',
     'plain_unchanged', 'plain_roundtrip_exact', 'hook_coherent', 'regex_source_is_modelled',
     'dispatch_unique', 'tag_match_iff', 'bare_unit_nan_prefix_fails',
 ]
@@ -179,7 +179,13 @@ def supported(spec):
 
 
 def has_matching_tag(spec):
-    return any(_kind(s) in ('s', 'ns') and _TAG_RE.fullmatch(s[_kind(s)]) for s in walk(spec))
+    for s in walk(spec):
+        k = _kind(s)
+        if k in ('s', 'ns') and _TAG_RE.fullmatch(s[k]):
+            return True
+        if k == 'nd' and s['nd']['dtype'] == 'str' and any(_TAG_RE.fullmatch(x) for x in s['nd']['data']):
+            return True
+    return False
 
 
 _TAG_RE = re.compile('!units\\[(.*)\\]')   # only used to label generated cases, never as the oracle
